@@ -23,6 +23,12 @@ def main():
         Add(Logarithm(Add(NthPower(x, 2), Constant(1))), Logarithm(Add(NthPower(y, 2), Constant(2))), Sine(Multiply(z, w1)), Cosine(Minus(a, b))),
         Power(Add(NthPower(x, 2), Constant(1)), Multiply(y, z)),
         Minus(Multiply(x, y, z), Divide(a, Add(Constant(5), NthPower(b, 2)))),
+        # rounding-sensitive sums: the order of accumulation is visible in the last bits
+        Add(Multiply(Constant(1e16), x), Multiply(Constant(-1e16), x), x, Multiply(Constant(0.1), x), Multiply(Constant(1e-3), x), y),
+        Add(Multiply(x, Constant(1e15)), Multiply(y, x), Multiply(x, Constant(-1e15)), Multiply(x, Constant(1/3)), Sine(x), Multiply(z, x)),
+        # repeated and distinct contributions to one variable
+        Add(Multiply(x, x), Sine(x), Exponential(x), Multiply(x, x), Cosine(x), Logarithm(Add(NthPower(x, 2), Constant(1)))),
+        Multiply(Add(x, y), Add(x, y), Sine(x), Add(x, y)),
     ]
     vals = {"x": 1.25, "y": -0.5, "z": 2.0, "alpha": 0.75, "beta": 3.5, "w1": -1.5, "w2": 0.125, "long_variable_name": 4.0}
     items = list(vals.items())
